@@ -477,7 +477,9 @@ def replay(ctx, path):
     r = j.get("replay", {})
     case = r.get("failing_input", r)
     cmd = case.get("harness_command") if isinstance(case, dict) else None
-    if cmd:
+    if cmd and cmd.split()[0] in ("pass", "solo"):          # extension F (partition pass under a schedule)
+        _c13_part.replay(ctx, j, case)
+    elif cmd:
         exe = ctx.link("c13_util", ["c13_util.c"], exclude=["patterns/allpairs.c"])
         ns, nw = case.get("config", [2, 2])
         _, out = run_batch(exe, core.qenv(ns, nw, stack=65536, QT_AFFINITY=0), [cmd])
